@@ -28,6 +28,7 @@ TREES = {
     "one": {b"a": (F, b"other\n")},
     "types": {b"a": (L, b"x"), b"x": (F, b"#!/bin/sh\n"), b"l": (F, b"was a link\n"), b"d": (F, b"file where a directory was\n")},
     "dirs": {b"a/b": (F, b"a became a directory\n"), b"d/f": (X, b"deep\n"), b"d/e": (F, b"e became a file\n")},
+    "prefix": {b"lib/x": (F, b"x\n"), b"lib.py": (F, b"py\n"), b"lib-extra": (X, b"e\n"), b"lib /sp": (F, b"s\n")},
     "odd": {b"\xff\xfe name": (F, b"\x00\x01binary\xff"), b"sp ace/q\"uote": (X, b"q\n"), b"d/f": (F, b"deep\n")},
 }
 
@@ -167,6 +168,29 @@ def main():
                 s = status_sets(rr)
                 if s != ({"add": [], "delete": [], "modify": []}, [], []):
                     fail("status not clean right after checkout", {"tree": name, "status": repr(s)[:300]})
+                stn = porcelain.status(rr)          # default untracked mode ("normal": untracked directories collapsed)
+                if list(stn.untracked) or list(stn.unstaged):
+                    fail("status (default mode) not clean right after checkout", {"tree": name, "untracked": repr(stn.untracked)[:200], "unstaged": repr(stn.unstaged)[:200]})
+                # an untracked file inside a tracked directory is reported as that file, an untracked directory as the directory
+                if any(b"/" in p_ for p_ in listing):
+                    tracked_dir = sorted(p_ for p_ in listing if b"/" in p_)[0].split(b"/")[0]
+                    open(os.path.join(os.fsencode(dst), tracked_dir, b"untracked.txt"), "wb").write(b"u")
+                    os.makedirs(os.path.join(dst, "newdir", "deep"))
+                    open(os.path.join(dst, "newdir", "deep", "f"), "wb").write(b"u")
+                    stn = porcelain.status(rr)
+                    gotu = sorted(os.fsencode(u) for u in stn.untracked)
+                    wantu = sorted([tracked_dir + b"/untracked.txt", b"newdir/"])
+                    if gotu != wantu:
+                        fail("status (default mode) misreports untracked paths", {"tree": name, "got": [u.decode("latin-1") for u in gotu], "want": [u.decode("latin-1") for u in wantu]})
+                    os.remove(os.path.join(os.fsencode(dst), tracked_dir, b"untracked.txt"))
+                    shutil.rmtree(os.path.join(dst, "newdir"))
+                # permission bits other than the owner's executable bit are not a modification (umask, chmod 744 / 645)
+                for p_, (m_, _c) in listing.items():
+                    if m_ in (F, X):
+                        os.chmod(os.path.join(os.fsencode(dst), p_), 0o744 if m_ == X else 0o645)
+                s = status_sets(rr)
+                if s != ({"add": [], "delete": [], "modify": []}, [], []):
+                    fail("group/other permission bits are reported as a change", {"tree": name, "status": repr(s)[:300]})
                 if rr.open_index().commit(rr.object_store) != rr[rr.head()].tree:
                     fail("index after checkout does not reproduce the tree id", {"tree": name})
                 # (c) switch to every other tree and back
@@ -260,11 +284,26 @@ def main():
             if b"d/f" in idx:
                 del idx[b"d/f"]
                 idx.write()
-        EDITS = [E_modify_same, E_modify_size, E_chmod_x, E_chmod_nox, E_delete, E_untracked, E_file_to_link, E_link_to_file, E_file_to_dir, E_stage_all, E_rm_cached]
+        def E_unstage_a(root, rr):
+            rr.get_worktree().unstage(["a"])
+
+        def E_dir_to_file(root, rr):
+            p = os.path.join(root, "d")
+            if os.path.isdir(p) and not os.path.islink(p):
+                shutil.rmtree(p)
+                open(p, "wb").write(b"now a file\n")
+        EDITS = [E_modify_same, E_modify_size, E_chmod_x, E_chmod_nox, E_delete, E_untracked, E_file_to_link, E_link_to_file, E_file_to_dir, E_stage_all, E_rm_cached, E_unstage_a, E_dir_to_file]
         K = 2 if tier == "quick" else 3
         seqs = [s for k in range(1, K + 1) for s in itertools.product(range(len(EDITS)), repeat=k)]
         if tier == "thorough":
-            seqs = [s for s in seqs if len(s) < 3 or hash(s) % 3 == 0]
+            seqs = [s for s in seqs if len(s) < 3 or (s[0] * 131 + s[1] * 17 + s[2]) % 3 == 0]
+        ix = {f.__name__: i for i, f in enumerate(EDITS)}
+        # directed longer sequences (every tier): stage / unstage round trips around same-size edits, type swaps and back
+        seqs += [tuple(ix[n] for n in names) for names in (
+            ("E_modify_same", "E_stage_all", "E_unstage_a"), ("E_modify_same", "E_stage_all", "E_unstage_a", "E_stage_all"),
+            ("E_file_to_link", "E_stage_all", "E_unstage_a"), ("E_chmod_x", "E_stage_all", "E_unstage_a"),
+            ("E_modify_size", "E_stage_all", "E_modify_size", "E_unstage_a"), ("E_dir_to_file", "E_stage_all", "E_untracked"),
+            ("E_delete", "E_stage_all", "E_untracked", "E_stage_all"), ("E_file_to_dir", "E_stage_all", "E_delete", "E_stage_all"))]
         tmpl = os.path.join(d, "tmpl")
         porcelain.clone(src, tmpl, checkout=True, branch=b"base", errstream=NULL)
         # make sure the index stat data is older than any later edit (racy-git: same-size edits within the index's own
